@@ -5,7 +5,7 @@ from . import core_model, core_real, tlc
 
 ENV_ACTIONS = {
     'EnvKill': ('kill', 'k1'), 'EnvPause': ('pause', 'p1'), 'EnvPlay': ('play', '-'), 'EnvResume': ('resume', 'v1'),
-    'EnvFail': ('fail', 'F'), 'EnvCancel': ('cancel', '-'), 'EnvClose': ('close', '-'),
+    'EnvFail': ('fail', 'F'), 'EnvCancel': ('cancel', '-'), 'EnvTaskCancel': ('taskcancel', '-'), 'EnvClose': ('close', '-'),
 }
 
 
